@@ -470,8 +470,9 @@ class IntegerSequence(SequenceBase):
         sequence_point = self._get_point_in_bounds(self.p_start)
         prev_point = None
         while sequence_point is not None:
-            if sequence_point > point:
-                # Technically, >=, but we already test for this above.
+            if sequence_point >= point:
+                # (an excluded point is not on-sequence, but can be reached
+                # here as the first point of the underlying progression)
                 break
             prev_point = sequence_point
             sequence_point = self.get_next_point(sequence_point)
